@@ -24,6 +24,7 @@ from typing import Dict, List, TYPE_CHECKING
 from deep.api.tracepoint.tracepoint_config import MetricDefinition
 
 from deep.api.tracepoint.trigger import build_trigger
+from deep.task import IllegalStateException
 
 if TYPE_CHECKING:
     from deep.api.tracepoint.trigger import Trigger
@@ -91,8 +92,14 @@ class TracepointConfigService:
     def __trigger_update(self, old_hash, old_config):
         ts = self._last_update
         if self._task_handler is not None:
-            future = self._task_handler.submit_task(self.update_listeners, self._last_update, old_hash,
-                                                    self._current_hash, old_config, self._tracepoint_config)
+            try:
+                future = self._task_handler.submit_task(self.update_listeners, self._last_update, old_hash,
+                                                        self._current_hash, old_config, self._tracepoint_config)
+            except IllegalStateException:
+                # we are shut down: nothing acts on the config now, and the next start gives the handler the config as
+                # it is then (a register/unregister made meanwhile must not fail half way, or raise into its caller)
+                logging.debug("Config changed while shut down, listeners are updated on the next start.")
+                return
             future.add_done_callback(lambda _: logging.debug("Completed processing new config %s", ts))
 
     def set_task_handler(self, task_handler):
